@@ -7,6 +7,7 @@ import Mastverif.Model.Cursor
 import Mastverif.Model.Loads
 import Mastverif.Model.Loader
 import Mastverif.Model.Backends
+import Mastverif.Model.Flush
 import Std.Data.HashMap
 /-!
 # Line-protocol driver for the executable models (compiled as `mastmodel`)
@@ -329,6 +330,30 @@ partial def step (s : St) (line : String) : St × String :=
       | none => (s, "bad-op")
   | ["kverr"] => (s, "err")
   | ["echo", x] => (s, x)
+  | ["flushtrace", slot, rslot, pool, exact, evs] =>
+      match nat slot, nat rslot, nat pool with
+      | some i, some j, some pool =>
+          match s.trees[i]? with
+          | none => (s, "bad-slot")
+          | some m =>
+              let (stores, r, m') := Tree.makeRoot s.enc m
+              let n := stores.length
+              let parsed : List MF.Ev := evs.toList.filterMap fun c =>
+                match c with
+                | 's' => some .startStore | 'o' => some .endOk | 'e' => some .endErr
+                | 'R' => some .retOk | 'X' => some .retErr | _ => none
+              match MF.accept n pool (exact == "1") {} parsed with
+              | none => (s, s!"reject n={n}")
+              | some o =>
+                  if !o.returned then (s, "reject no-return")
+                  else if parsed.getLast? == some MF.Ev.retOk then
+                    let (nodes, bytes) :=
+                      if Tree.isEmptyTop m'.root then (s.nodes, s.bytes) else register s.enc m'.root s.nodes s.bytes
+                    let linkS := match r.link with | some l => bstr l | none => "-"
+                    ({ s with trees := s.trees.insert i m', roots := s.roots.insert j r, nodes, bytes },
+                     s!"ok {linkS} {r.size} {r.height} {r.bf} {evs}")
+                  else (s, s!"err {evs}")
+      | _, _, _ => (s, "bad-op")
   | ["cmp", a, b] =>
       match nat a, nat b with
       | some a, some b => (s, if a < b then "-1" else if a = b then "0" else "1")
